@@ -287,6 +287,13 @@ def run(ctx):
     res = vcheck.coq_build(["Properties/Properties_C21.v"])
     ctx.coq_evidence(res)
     ctx.log("coq: %d/%d obligations, %.1fs" % (len(res.discharged), len(res.obligations), res.wall_s))
+    if ctx.thorough() and res.ok:
+        rc, out = vcheck.coqchk("LV.Properties.Properties_C21")
+        ok = rc == 0 and "Axioms: <none>" in out
+        ctx.coverage["coqchk"] = "ok: no axioms, no type-in-type, no unsafe fixpoints" if ok else out[-600:]
+        ctx.log("coqchk: %s" % ("ok" if ok else "FAILED"))
+        if not ok:
+            ctx.violation("coqchk rejects LV.Properties.Properties_C21 or finds axioms", {"theorem": "Properties_C21", "coqchk": out[-1500:]}, no_input=True)
     model = conc_check.build_model(ctx, "Extract_FreeList.v")
     impl = vcheck.cxx_build(os.path.join(vcheck.VERIF, "harness/C21/main.cpp"), os.path.join(ctx.work, "harness"),
                             hook=True, link_cds=False, extra=EXTRA)
